@@ -129,6 +129,7 @@ func rulesC05(c *Ctx) {
 	identEntryRule(c, "C05.idententry")
 	// ---- column arithmetic ----
 	columnC05(c)
+	eofPosC05(c)
 	// ---- CR folding ----
 	crfoldRule(c, "C05.crfold")
 	// ---- rune push-back bounded ----
@@ -798,4 +799,48 @@ func vacuousIndexRule(c *Ctx, rule string, fns ...string) {
 		})
 	}
 	c.OK(rule, "range-index comparisons examined", 0, fmt.Sprintf("%d vacuous comparisons", n))
+}
+
+// eofPosC05: reading the end marker does not move the position.
+func eofPosC05(c *Ctx) {
+	p := c.P
+	c.Rule("C05.eofpos", "reader.read, evaluated with the underlying reader reporting end of input, does not advance the column: the end marker is not a character, and a scanner that swallowed the first end marker reads a second one whose position would otherwise lie one column past the end of the text (the column quoted in every `found EOF` error)")
+	f := p.SSAFunc(p.Method("reader", "read"))
+	if f == nil {
+		c.Unk("C05.eofpos", "(*reader).read", 0, "anchor not found")
+		return
+	}
+	s := p.newSCCP()
+	s.hook = func(call *ssa.Call, args []cval) ([]cval, bool) {
+		if call.Call.IsInvoke() && call.Call.Method.Name() == "ReadRune" {
+			return []cval{cTop, cTop, cSym("io.EOF")}, true
+		}
+		return nil, false
+	}
+	r := s.run(f, nil, 0)
+	advanced := token.NoPos
+	for _, b := range f.Blocks {
+		if !r.execB[b.Index] {
+			continue
+		}
+		for _, in := range b.Instrs {
+			st, ok := in.(*ssa.Store)
+			if !ok {
+				continue
+			}
+			fa, ok := st.Addr.(*ssa.FieldAddr)
+			if !ok || fieldNameOf(fa) != "Char" {
+				continue
+			}
+			if bo, ok := st.Val.(*ssa.BinOp); ok && bo.Op == token.ADD {
+				advanced = st.Pos()
+			}
+		}
+	}
+	key := "(*reader).read: column at end of input"
+	if advanced != token.NoPos {
+		c.Bad("C05.eofpos", key, advanced, "the column is advanced for the (first) end marker: after a token that runs to the end of the text the EOF token is reported one column too far (`SELECT` -> found EOF ... char 8, the text has 6 characters)")
+	} else {
+		c.OK("C05.eofpos", key, f.Pos(), "not advanced")
+	}
 }
